@@ -22,6 +22,7 @@ def run_cases(cases, res, stratum):
                 x = A.mk(fx, np, s, nw, nf, [codes[0], codes[2], codes[1], codes[3]], shape=(2, 2), shifting=c['mode']).T
             if not arr and c.get('elem'):       # the operand is an element taken out of an array by indexing (its raw value is a NumPy scalar)
                 x = A.mk(fx, np, s, nw, nf, [codes[0], 0] if c['elem'] == 1 else [0, 0, codes[0]], shape=(2,) if c['elem'] == 1 else (3,), shifting=c['mode'])[0 if c['elem'] == 1 else 2]
+            if c.get('nwm'): x.config.n_word_max = c['nwm']      # (a limit for INFERRED words in the operand's configuration: the shifts grow their results by their own rule)
             if c.get('tmpl'):       # a format template for ARITHMETIC results sits in the operand's configuration (op_out_like): the shifts size their results by their own rule
                 x.config.op_out_like = fx.Fxp(None, dtype=c['tmpl'])
             nn = n
@@ -144,7 +145,7 @@ def shard(shard, nshards, rng, tier, extra):
             return rng.choice([lo, hi, 0, 1, -1 if s else 1, lo + 1, hi - 1, rng.randint(lo, hi), (rng.randint(lo, hi) >> rng.randint(0, 6)) << rng.randint(0, 6)])
         cs = [max(lo, min(hi, code())) for _ in range(k)]
         if s and k >= 2 and rng.random() < 0.15: j_ = rng.randint(0, nw - 2); cs[0], cs[1] = -(1 << j_), (1 << j_)       # (-2^j before +2^j)
-        cases.append({'f': [s, nw, nf], 'codes': cs, 'n': n, 'mode': rng.choice(MODES), 'count': rng.choice(['int', 'int', 'np.int64', 'np.uint8']), 'elem': rng.choice([0, 0, 1, 2]), 'layoutT': len(cs) == 4 and rng.random() < 0.7, 'tmpl': rng.choice([None, None, None, 'fxp-s8/0', 'fxp-u12/6'])})
+        cases.append({'f': [s, nw, nf], 'codes': cs, 'n': n, 'mode': rng.choice(MODES), 'count': rng.choice(['int', 'int', 'np.int64', 'np.uint8']), 'elem': rng.choice([0, 0, 1, 2]), 'layoutT': len(cs) == 4 and rng.random() < 0.7, 'tmpl': rng.choice([None, None, None, 'fxp-s8/0', 'fxp-u12/6']), 'nwm': rng.choice([None, None, None, 12, 16, 32])})
     run_cases(cases, res, 'B:boundary-random-to-32')
     # C: wider words (33..96) and large counts: the shifted code leaves int64 / uint64, object arrays of Python integers
     cases = []
